@@ -168,6 +168,8 @@ def run_case(case, rec, mon=None):
             rec.count("version_%d" % info["version"])
             rec.count("nmean_%d" % info["nmean"])
             rec.count("type_" + info["kind"])
+            if stats.get("midframe_bitshift"):
+                rec.count("streams_with_bitshift_between_channel_blocks")
             if len(stats["blocksizes"]) > 1:
                 rec.count("streams_with_blocksize_changes")
             ncmd = sum(1 for k in stats["cmds"] if k in (M.FN_DIFF0, M.FN_DIFF1, M.FN_DIFF2, M.FN_DIFF3, M.FN_QLPC, M.FN_ZERO))
@@ -270,7 +272,7 @@ def run_shard(spec, rec):
 def finish(rec):
     monitor.require(rec, ["pydrobert.speech.util.read_signal"])
     need = ["cmd_DIFF0", "cmd_DIFF1", "cmd_DIFF2", "cmd_DIFF3", "cmd_QLPC", "cmd_ZERO", "cmd_BLOCKSIZE", "cmd_BITSHIFT", "cmd_QUIT", "version_1", "version_2",
-            "type_pcm01", "type_pcm10", "type_ulaw", "bitshift_1", "lpc_order_1", "nmean_0", "nmean_4", "streams_with_blocksize_changes", "malformed_truncated",
+            "type_pcm01", "type_pcm10", "type_ulaw", "bitshift_1", "streams_with_bitshift_between_channel_blocks", "lpc_order_1", "nmean_0", "nmean_4", "streams_with_blocksize_changes", "malformed_truncated",
             "malformed_version", "malformed_command", "malformed_sampletype", "shipped_vectors_checked"]
     for k in need:
         if not rec.counters[k]:
